@@ -334,6 +334,21 @@ def main(argv=None):
     args = ap.parse_args(argv)
     prop = args.prop.upper()
     seed = int(os.environ.get("VERIF_SEED", "1") or 1)
+    # private temp root per process: whoosh's RamStorage.temp_storage() and the repo's own tests use fixed
+    # names under the system temp dir (e.g. <tmp>/MAIN.tmp), which collide between concurrent processes
+    import tempfile
+    import shutil
+    private_tmp = tempfile.mkdtemp(prefix="wv_%s_" % prop)
+    os.environ["TMPDIR"] = private_tmp
+    tempfile.tempdir = private_tmp
+    try:
+        return _run_guarded(args, prop, seed)
+    finally:
+        tempfile.tempdir = None
+        shutil.rmtree(private_tmp, ignore_errors=True)
+
+
+def _run_guarded(args, prop, seed):
     try:
         return _main(args, prop, seed)
     except HarnessError as e:
